@@ -98,6 +98,20 @@ func genPacketSpec(t *core.Tape, maxPayload int) *pktSpec {
 			l := []int{1, 0, 2, 4, 17, 255, 32}[t.Intn(7)]
 			s.exts = append(s.exts, extEl{id, t.Bytes(l)})
 		}
+		if t.Chance(1, 300) {
+			// a full house: all 255 ids with (nearly) full values, an extension block of 65532-65535 octets before alignment -
+			// 16384 words, the first length whose octet count no longer fits 16 bits
+			s.exts = s.exts[:0]
+			first := t.Intn(255)
+			short := t.Intn(4)
+			for i := 0; i < 255; i++ {
+				l := 255
+				if i == 200 {
+					l -= short
+				}
+				s.exts = append(s.exts, extEl{uint8(1 + (first+i)%255), t.Bytes(l)})
+			}
+		}
 	case profLegacy:
 		s.legacyProfile = drawLegacyProfile(t)
 		words := t.Intn(5)
